@@ -66,7 +66,14 @@ def run_pair(sub, scenarios, jobs=None, extra_driver_args=(), extra_vh_args=(), 
         text = "".join(part)
         a = subprocess.run([VH, sub, *extra_vh_args], input=text, capture_output=True, text=True, env=ENV,
                            timeout=timeout)
-        b = subprocess.run([DRIVER, sub, *extra_driver_args], input=text, capture_output=True, text=True,
+        # scenarios the implementation aborted for size (`result=capped`) are not sent to the model
+        ia = split_blocks(a.stdout) if a.returncode == 0 else {}
+        keep = []
+        for blk in part:
+            nm = blk.split("\n", 1)[0].split()[1]
+            if not any("result=capped" in l for l in ia.get(nm, [])):
+                keep.append(blk)
+        b = subprocess.run([DRIVER, sub, *extra_driver_args], input="".join(keep), capture_output=True, text=True,
                            env=ENV, timeout=timeout)
         return a, b
 
